@@ -696,6 +696,29 @@ Proof.
     eapply LV_eo; [apply eo_move_entity|eapply LV_eo; eauto].
 Qed.
 
+(* the removal itself: it takes exactly the entity stored at the row (DeadEnts.remove_entity_dead: that one becomes
+   dead); every other live id stays live *)
+Lemma LV_remove w k1 v m' : LV w -> k1 <> k -> sm_remove k1 (w_ents w) = Some (v, m') -> LV (set_ents w m').
+Proof.
+  intros [A B] Hne E. split; cbn [w_ents set_ents]; [eapply remove_inv; eauto|].
+  rewrite (remove_get_other _ _ _ _ _ A E (fun X => Hne (eq_sym X))). exact B.
+Qed.
+Theorem remove_entity_spares_the_others w ai row a e vals : LV w ->
+  slab_get (w_archs w) ai = Some a -> nget (a_rows a) row = Some (e, vals) -> e <> k ->
+  LV (res_world (remove_entity w (ai, row))).
+Proof.
+  intros HP Ha Hr Hne. unfold remove_entity. rewrite Ha, Hr. cbn zeta. set (w2 := set_archs _ _).
+  assert (HP2 : LV w2) by (eapply LV_eo; [|exact HP]; unfold w2; now rewrite eo_set_archs, eo_drop_fold).
+  destruct (sm_remove e (w_ents w2)) as [[v ents']|] eqn:Er; [|exact HP2]. cbn zeta.
+  pose proof (LV_remove w2 e v ents' HP2 Hne Er) as HP3. set (w3 := set_ents w2 ents') in *.
+  destruct (nget (a_rows (set_rows a (swap_remove (a_rows a) row))) row) as [[de dv]|].
+  - destruct (sm_get de (w_ents w3)) as [l|]; [|exact HP3].
+    pose proof (eo_set_loc w3 de (fst l, row)) as Hl. destruct (set_loc w3 de (fst l, row)) as [[] w4|f w4]; cbn [rbind res_world] in *.
+    + eapply LV_eo; [|eapply LV_eo; [exact Hl|exact HP3]]. destruct (nlen _ =? 0); [apply eo_notify_remove|reflexivity].
+    + eapply LV_eo; eauto.
+  - cbn [rbind res_world]. eapply LV_eo; [|exact HP3]. destruct (nlen _ =? 0); [apply eo_notify_remove|reflexivity].
+Qed.
+
 Variable beh : hinfo -> logent -> N -> script.
 (* the registered kind of the delivered event *)
 Definition item_kind (w : world) (it : qitem) : option ekind :=
